@@ -93,6 +93,10 @@ func roundUpTo(value float32, granularity float64) float32 {
 	// 2.70000005) as a fraction to be rounded up, so that 2.7 became
 	// 2.71, and 2.72 the next time the formatted source was parsed.
 	scaled := float64(value * float32(granularity))
+	if math.IsInf(scaled, 0) {
+		// Values this large have no fractional part to round.
+		return value
+	}
 	if value > 0 {
 		return float32(math.Ceil(scaled) / granularity)
 	} else if value < 0 {
